@@ -3,12 +3,12 @@
 void generateHmacSha1(QByteArray *ret, const QByteArray *key, const QByteArray *text)
 __CPROVER_assigns(*ret, gh_hmac_calls, gh_hmac_len, gh_hmac_key, gh_hmac_arg_w, gh_hmac_patched, gh_hmac_plen)
 __CPROVER_ensures(gh_hmac_calls == __CPROVER_old(gh_hmac_calls) + 1 && gh_hmac_len == text->n && gh_hmac_key == key && gh_hmac_patched == text->patched && gh_hmac_plen == PLEN(text))
-__CPROVER_ensures(g_w < (size_t)text->n ==> gh_hmac_arg_w == text->w_val)
+__CPROVER_ensures(g_w < text->n ==> gh_hmac_arg_w == text->w_val)
 __CPROVER_ensures(QBA_PLAIN(ret, 20) && ret->n == 20 && ret->src == gh_hmac_out)
 ;
 quint32 generateCrc32(const QByteArray *text)
 __CPROVER_assigns(gh_crc_calls, gh_crc_len, gh_crc_arg_w, gh_crc_patched, gh_crc_plen)
 __CPROVER_ensures(gh_crc_calls == __CPROVER_old(gh_crc_calls) + 1 && gh_crc_len == text->n && gh_crc_patched == text->patched && gh_crc_plen == PLEN(text))
-__CPROVER_ensures(g_w < (size_t)text->n ==> gh_crc_arg_w == text->w_val)
+__CPROVER_ensures(g_w < text->n ==> gh_crc_arg_w == text->w_val)
 __CPROVER_ensures(__CPROVER_return_value == gh_crc_out)
 ;
